@@ -603,9 +603,11 @@ func TestC16(t *testing.T) {
 					b.Stop()
 					continue
 				}
-				// one complete request first, then silence: the period counts from the end of that exchange
-				c.statProbe("/", 10*time.Second)
+				// one complete request first, then silence: the server starts its period after it has answered, which is
+				// later than the instant taken here before the request is sent - so "earlier than the period" is sound
+				// whatever the load on this machine
 				start := time.Now()
+				c.statProbe("/", 10*time.Second)
 				_, rerr := c.readN(1, sp.d+20*time.Second)
 				el := time.Since(start)
 				c.Close()
